@@ -19,7 +19,12 @@ EMPTY_TREE = "4b825dc642cb6eb9a060e54bf8d69288fbee4904"
 UNKNOWN_SHA = "deadbeef" * 5
 
 
+INHERITED_GIT_VARS = ("GIT_DIR", "GIT_WORK_TREE", "GIT_INDEX_FILE", "GIT_OBJECT_DIRECTORY", "GIT_CEILING_DIRECTORIES", "GIT_NAMESPACE", "GIT_COMMON_DIR")
+
+
 def setup_git_env():
+    for v in INHERITED_GIT_VARS:      # e.g. when ./check is started from a git hook
+        os.environ.pop(v, None)
     os.environ.update(GIT_ENV)
 
 
